@@ -457,7 +457,7 @@ def run_plan(plan, stats=None):
     if pa is None:
         pa = Probe(top, 'pa', ws, 'q_')
     every = dict(blocks, pb=pb, wf=(host if host is not None else wf), pa=pa)
-    order_ = {k: every[k] for k in plan['layout'] if k not in in_dom}               # the planned visiting order of the leaves
+    order_ = {every[k].name: every[k] for k in plan['layout'] if k not in in_dom}               # the planned visiting order of the leaves
     for k, v in top.children.items():
         if k not in order_:
             order_[k] = v
